@@ -26,7 +26,7 @@ def render_source(sc):
 DRIVER_ERR = eng.DRIVER_ERR
 K = dict(cbs=0.3, conv=0.15, sends=0.05, guards=0.3, multi_event=0.5, multi_cand=0.5, allow=0.4, unknown_ev=0.2,
          p_async=0.2, ops=(3, 14), rtc_false=0.15)
-STYLES = ["attr", "events", "allowed", "bound", "bound2", "bound3", "foreign"]
+STYLES = ["attr", "events", "allowed", "bound", "bound2", "bound3", "foreign", "strenum"]
 
 
 def attr_probe(sc):
